@@ -212,8 +212,8 @@ Fixpoint record_pages (tc nr : N) (ps : list page_in) : list ploc :=
   match ps with
   | [] => []
   | p :: r =>
-      {| pl_offset := tc; pl_size := comp_size p; pl_first_row := nr |}
-        :: record_pages (tc + comp_size p) (nr + pg_nrows p) r
+      let s := comp_size p in
+      {| pl_offset := tc; pl_size := s; pl_first_row := nr |} :: record_pages (tc + s) (nr + pg_nrows p) r
   end.
 
 (* writeRowGroup: c.offsetIndex.PageLocations[j].Offset += dataPageOffset *)
@@ -265,13 +265,14 @@ Definition meta_tree (off bl : N) (c : chunk_in) : tval :=
                end)
            ++ ck_tail c).
 
-(* [ci], [oi] = offsets at which the column index / offset index of the column are written;
+(* [ci], [oi] = offsets at which the column index / offset index of the column are written,
+   [oilen] = length of the encoded offset index;
    ColumnChunk.FileOffset is never set by the writer: 0 (required field) *)
-Definition chunk_tree (off bl ci oi : N) (c : chunk_in) : tval :=
+Definition chunk_tree (off bl ci oi oilen : N) (c : chunk_in) : tval :=
   TStruct ((CC_FileOffset, i64 0)
            :: (CC_MetaData, meta_tree off bl c)
            :: opt_i64 CC_OffsetIndexOffset oi
-           ++ opt_i32 CC_OffsetIndexLength (sizeN (oindex_bytes off c))
+           ++ opt_i32 CC_OffsetIndexLength oilen
            ++ (match ck_cindex c with
                | [] => []
                | _ => opt_i64 CC_ColumnIndexOffset ci ++ opt_i32 CC_ColumnIndexLength (sizeN (ck_cindex c))
@@ -283,9 +284,11 @@ Fixpoint lay_chunks (off bl ci oi : N) (cs : list chunk_in) : list (tval * tval)
   match cs with
   | [] => []
   | c :: r =>
-      (chunk_tree off bl ci oi c, oindex_tree off c)
+      let oit := oindex_tree off c in
+      let oilen := sizeN (encode oit) in
+      (chunk_tree off bl ci oi oilen c, oit)
         :: lay_chunks (off + sizeN (chunk_bytes c)) (bl + sizeN (ck_bloom c)) (ci + sizeN (ck_cindex c))
-             (oi + sizeN (oindex_bytes off c)) r
+             (oi + oilen) r
   end.
 
 (** * Row groups (writeRowGroup) *)
@@ -337,26 +340,32 @@ Definition cindex_start (fi : file_in) : N := sizeN file_magic + sizeN (groups_b
 Definition oindex_start (fi : file_in) : N := cindex_start fi + sizeN (cindexes_bytes fi).
 
 Definition laid_groups (fi : file_in) : list (tval * list tval) :=
-  lay_groups (sizeN file_magic) (cindex_start fi) (oindex_start fi) 0 (fi_groups fi).
-
-Definition oindexes_bytes (fi : file_in) : bytes := concat (map (fun gl => oi_bytes (snd gl)) (laid_groups fi)).
+  let cs := cindex_start fi in
+  lay_groups (sizeN file_magic) cs (cs + sizeN (cindexes_bytes fi)) 0 (fi_groups fi).
 
 Definition parquet_version : N := 2.
 
-Definition footer_tree (fi : file_in) : tval :=
+(* [lg]: the laid out row groups *)
+Definition footer_of (fi : file_in) (lg : list (tval * list tval)) : tval :=
   TStruct ((FMD_Version, i32 parquet_version)
            :: (FMD_Schema, fi_schema fi)
            :: (FMD_NumRows, i64 (fold_left N.add (map group_num_rows (fi_groups fi)) 0))
-           :: (FMD_RowGroups, TList T_STRUCT (map fst (laid_groups fi)))
+           :: (FMD_RowGroups, TList T_STRUCT (map fst lg))
            :: fi_tail fi).
 
-Definition footer_bytes (fi : file_in) : bytes := encode (footer_tree fi).
+Definition oindexes_of (lg : list (tval * list tval)) : bytes := concat (map (fun gl => oi_bytes (snd gl)) lg).
 
+Definition assemble (fi : file_in) (lg : list (tval * list tval)) : bytes :=
+  let fb := encode (footer_of fi lg) in
+  file_magic ++ groups_bytes fi ++ cindexes_bytes fi ++ oindexes_of lg
+  ++ fb ++ to_le 4 (sizeN fb) ++ file_magic.
+
+Definition footer_tree (fi : file_in) : tval := footer_of fi (laid_groups fi).
+Definition footer_bytes (fi : file_in) : bytes := encode (footer_tree fi).
+Definition oindexes_bytes (fi : file_in) : bytes := oindexes_of (laid_groups fi).
 Definition footer_start (fi : file_in) : N := oindex_start fi + sizeN (oindexes_bytes fi).
 
-Definition layout_bytes (fi : file_in) : bytes :=
-  file_magic ++ groups_bytes fi ++ cindexes_bytes fi ++ oindexes_bytes fi
-  ++ footer_bytes fi ++ to_le 4 (sizeN (footer_bytes fi)) ++ file_magic.
+Definition layout_bytes (fi : file_in) : bytes := assemble fi (laid_groups fi).
 
 Definition layout (fi : file_in) : bytes * tval := (layout_bytes fi, footer_tree fi).
 
@@ -418,12 +427,19 @@ Definition group_ok (g : group_in) : bool :=
 
 (* the trees the accounting produced are encodable and within the decoder's
    thrift fuel; the footer length fits the 4-byte field *)
-Definition file_ok (fi : file_in) : bool :=
+Definition file_ok_with (fi : file_in) (lg : list (tval * list tval)) : bool :=
+  let ft := footer_of fi lg in
   forallb group_ok (fi_groups fi)
   && ids_between FMD_RowGroups (2 ^ 15) (fi_tail fi)
-  && wfb (footer_tree fi) && (need (footer_tree fi) <=? 64)%nat
-  && forallb (fun gl => forallb (fun oi => wfb oi && (need oi <=? 64)%nat) (snd gl)) (laid_groups fi)
-  && (sizeN (footer_bytes fi) <? 2 ^ 32).
+  && wfb ft && (need ft <=? 64)%nat
+  && forallb (fun gl => forallb (fun oi => wfb oi && (need oi <=? 64)%nat) (snd gl)) lg
+  && (sizeN (encode ft) <? 2 ^ 32).
+
+Definition file_ok (fi : file_in) : bool := file_ok_with fi (laid_groups fi).
+
+(* bytes and side conditions in one pass (what the oracle runs) *)
+Definition layout_checked (fi : file_in) : bytes * bool :=
+  let lg := laid_groups fi in (assemble fi lg, file_ok_with fi lg).
 
 (** * Recovering the input from an observed file
 
